@@ -281,40 +281,45 @@ def originLen (p : Bytes) : Int :=
 def originString (p : Bytes) (parsed : Bool) : Out Bytes :=
   if !parsed then .ok p else newOrigin p
 
-/-! ### the line walk shared (textually) by `validateOrigin` and `slowGenBankOriginParser` -/
+/-! ### the line walk of `validateOrigin` and `slowGenBankOriginParser`
+
+The two functions walk a line with the same three nested loops.  They differ in what an index
+beyond the end of the slice does: `validateOrigin` indexes unchecked (`p[offset]`, a run-time
+panic), `slowGenBankOriginParser` tests `extent >= len(q)` first and returns an error.  The
+parameter `oob` is that outcome. -/
 
 /-- `isBaseCharacter = ascii.Range(33, 126)` -/
 def isBase (c : UInt8) : Bool := 33 ≤ c && c ≤ 126
 
 /-- `for k := 0; k < 10 && i+j+k < length; k++ { if !isBaseCharacter(p[offset]) …; offset++ }`
 on the suffix `p[offset:]`; returns the suffix after the loop. -/
-def walkChars (length : Int) (ij : Nat) : Nat → Nat → Bytes → Out Bytes
+def walkChars (oob : Err) (length : Int) (ij : Nat) : Nat → Nat → Bytes → Out Bytes
   | 0, _, rest => .ok rest
   | f + 1, k, rest =>
     if k < 10 ∧ ((ij + k : Nat) : Int) < length then
       match rest with
-      | [] => .error .panic
-      | c :: r => if isBase c then walkChars length ij f (k + 1) r else .error .fail
+      | [] => .error oob
+      | c :: r => if isBase c then walkChars oob length ij f (k + 1) r else .error .fail
     else .ok rest
 
 /-- `for j := 0; j < 60 && i+j < length; j += 10 { if p[offset] != ' ' …; offset++; <chars> }` -/
-def walkGroups (length : Int) (i : Nat) : Nat → Nat → Bytes → Out Bytes
+def walkGroups (oob : Err) (length : Int) (i : Nat) : Nat → Nat → Bytes → Out Bytes
   | 0, _, rest => .ok rest
   | f + 1, j, rest =>
     if j < 60 ∧ ((i + j : Nat) : Int) < length then
       match rest with
-      | [] => .error .panic
+      | [] => .error oob
       | c :: r =>
         if c != 32 then .error .fail else
-        match walkChars length (i + j) 10 0 r with
+        match walkChars oob length (i + j) 10 0 r with
         | .error e => .error e
-        | .ok r' => walkGroups length i f (j + 10) r'
+        | .ok r' => walkGroups oob length i f (j + 10) r'
     else .ok rest
 
 /-- `bytes.HasPrefix(p[offset:], Sprintf("%9d", i+1))`, then the groups -/
-def walkLine (length : Int) (i : Nat) (rest : Bytes) : Out Bytes :=
+def walkLine (oob : Err) (length : Int) (i : Nat) (rest : Bytes) : Out Bytes :=
   let pre := index9 (i + 1)
-  if pre.isPrefixOf rest then walkGroups length i 6 0 (rest.drop pre.length) else .error .fail
+  if pre.isPrefixOf rest then walkGroups oob length i 6 0 (rest.drop pre.length) else .error .fail
 
 /-! ### `validateOrigin` — the fast path (genbank_subparsers.go:370) -/
 
@@ -322,7 +327,7 @@ def validateLines (length : Int) : Nat → Nat → Bytes → Out Unit
   | 0, _, _ => .ok ()
   | f + 1, i, rest =>
     if (i : Int) < length then
-      match walkLine length i rest with
+      match walkLine .panic length i rest with
       | .error e => .error e
       | .ok r =>
         match r with
@@ -341,17 +346,22 @@ def splitLine (st : Bytes) : Bytes × Bytes :=
   let r := st.drop i
   (st.take i, if r.length < n then r else r.drop n)
 
-/-- one pass of the loop: read a line `q`, walk it, `offset += copy(p[offset:], q[:extent])`
-(truncated at the capacity `cap = len(p)`), `p[offset] = '\n'` (panics at `offset = cap`).
-Characters of the line behind `extent` are ignored. -/
+/-- `len(bytes.TrimRight(r, " ")) == 0` -/
+def allBlank (r : Bytes) : Bool := r.all (· == 32)
+
+/-- one pass of the loop: read a line `q`, walk it (every index bounds-checked: a short line is an
+error), accept nothing but blanks behind the declared residues (`bytes.TrimRight(q[extent:], " ")`),
+`offset += copy(p[offset:], q[:extent])` (truncated at the capacity `cap = len(p)`),
+`p[offset] = '\n'` (panics at `offset = cap`). -/
 def slowLines (length : Int) (cap : Nat) : Nat → Nat → Bytes → Bytes → Out (Bytes × Bytes)
   | 0, _, st, acc => .ok (acc, st)
   | f + 1, i, st, acc =>
     if (i : Int) < length then
       let (q, st') := splitLine st
-      match walkLine length i q with
+      match walkLine .fail length i q with
       | .error e => .error e
       | .ok r =>
+        if !allBlank r then .error .fail else
         let extent := q.length - r.length
         let acc := (acc ++ q.take extent).take cap
         if acc.length < cap then slowLines length cap f (i + 60) st' (acc ++ [10])
@@ -386,27 +396,33 @@ def fieldName (name : Bytes) (depth : Int) : P Unit := do
     | some _ => Pars.drop
     | none => do Pars.pop; Pars.clear; Pars.fail
 
-/-- the combined reader: field name, rest of the `ORIGIN` line, then the fast path on exactly
-`toOriginLength(length)` requested bytes and, if that reports an error, the slow path on the
-state.  Result: the buffer of the resulting (unparsed) `Origin`. -/
+/-- the combined reader: field name, rest of the `ORIGIN` line, `state.Clear()`, then the fast
+path on exactly `toOriginLength(length)` requested bytes and, if that reports an error, the slow
+path on the state; finally a further line starting with a blank is an error ("sequence is longer
+than the declared length").  Result: the buffer of the resulting (unparsed) `Origin`. -/
 def originParser (length : Int) (depth : Int) : P Bytes := do
   fieldName [79, 82, 73, 71, 73, 78] depth            -- "ORIGIN"
   let _ ← Pars.line
+  Pars.clear
   let n := toOriginLength length
   -- `state.Request(n)` with n < 0 "succeeds" and `state.Buffer()` slices with end < start
   if n < 0 then Pars.panic
   let p ← (do
     let s ← Pars.getS
     if s.rest.length < n.toNat then Pars.fail else pure (s.rest.take n.toNat) : P Bytes)
-  match validateOrigin p length with
-  | .ok () => do Pars.advanceN n.toNat; pure p
-  | .error .panic => Pars.panic
-  | .error .fail =>
-    let s ← Pars.getS
-    match slowOrigin s.rest length with
+  let buf ← (match validateOrigin p length with
+    | .ok () => do Pars.advanceN n.toNat; pure p
     | .error .panic => Pars.panic
-    | .error .fail => Pars.fail
-    | .ok (tok, st') => do Pars.setS { s with rest := st' }; pure tok
+    | .error .fail => do
+      let s ← Pars.getS
+      match slowOrigin s.rest length with
+      | .error .panic => Pars.panic
+      | .error .fail => Pars.fail
+      | .ok (tok, st') => do Pars.setS { s with rest := st' }; pure tok : P Bytes)
+  -- `if c, err := pars.Next(state); err == nil && c == ' '`
+  match (← Pars.getS).rest with
+  | 32 :: _ => Pars.fail
+  | _ => pure buf
 
 /-- run `originParser` on a fresh state: (Origin buffer, remaining input) -/
 def originParse (input : Bytes) (length : Int) (depth : Int := 12) : Out (Bytes × Bytes) :=
